@@ -3,7 +3,13 @@
 // verif:package caskethttp/push
 package push
 
-import "github.com/tmpim/casket/zzverif/verifrt"
+import (
+	"net/http"
+	"net/url"
+	"strings"
+
+	"github.com/tmpim/casket/zzverif/verifrt"
+)
 
 func zzAlpha(b byte, alphabet string) bool {
 	ok := false
@@ -45,4 +51,88 @@ func VerifH19dLinkParams() {
 	}
 	res := parseLinkHeader("</a.css>" + tail)
 	verifrt.Observe("n", len(res))
+}
+
+type zz19PushWriter struct {
+	hdr    http.Header
+	pushed []string
+	fail   bool
+}
+
+func (w *zz19PushWriter) Header() http.Header {
+	if w.hdr == nil {
+		w.hdr = http.Header{}
+	}
+	return w.hdr
+}
+func (w *zz19PushWriter) Write(p []byte) (int, error) { return len(p), nil }
+func (w *zz19PushWriter) WriteHeader(int)             {}
+func (w *zz19PushWriter) Push(target string, opts *http.PushOptions) error {
+	if w.fail {
+		return http.ErrNotSupported
+	}
+	w.pushed = append(w.pushed, target)
+	return nil
+}
+
+type zz19Backend struct{ links []string }
+
+func (b zz19Backend) ServeHTTP(w http.ResponseWriter, r *http.Request) (int, error) {
+	for _, l := range b.links {
+		w.Header().Add("Link", l)
+	}
+	w.Write([]byte("x"))
+	return 0, nil
+}
+
+// VerifH19dPushHandler: the push middleware itself (not only the parser) takes any Link header a
+// backend sends: arbitrary target bytes between the angle brackets, parameters, several links,
+// over an HTTP/2-capable connection whose Push succeeds or fails. A target that is not remote and
+// not marked nopush is pushed exactly as written; remote ones never are.
+func VerifH19dPushHandler() {
+	n := verifrt.IntRange("len", 0, 4+verifrt.Tier())
+	target := verifrt.String("target", n)
+	for i := 0; i < n; i++ {
+		verifrt.Assume(zzAlpha(target[i], "/:%[hta") || verifrt.Tier() > 0 && n <= 3)
+		verifrt.Assume(target[i] != '>' && target[i] != ',' && target[i] != ';')
+	}
+	prefix := []string{"", "/", "http://", "https://", "//", "HTTP://"}[verifrt.Choose("prefix", 6)]
+	uri := prefix + target
+	tail := []string{"", "; rel=preload", "; nopush", "; rel=preload; nopush", "; as=\"style\""}[verifrt.Choose("params", 5)]
+	links := []string{"<" + uri + ">" + tail}
+	if verifrt.Bool("second-link") {
+		links = append(links, "</b.css>")
+	}
+	w := &zz19PushWriter{fail: verifrt.Bool("push-fails")}
+	r := &http.Request{Method: "GET", URL: &url.URL{Path: "/"}, Header: http.Header{}, Host: "h", RemoteAddr: "1.2.3.4:5", Proto: "HTTP/2.0", RequestURI: "/"}
+	if verifrt.Bool("is-pushed-request") {
+		r.Header.Set(pushHeader, "1")
+	}
+	m := Middleware{Next: zz19Backend{links: links}, Root: http.Dir(verifrt.FSRoot())}
+	code, err := m.ServeHTTP(w, r)
+	verifrt.Assert(code == 0 && err == nil, "backend-result-passed-on")
+	remote := strings.HasPrefix(uri, "//") || strings.HasPrefix(uri, "http://") || strings.HasPrefix(uri, "https://")
+	nopush := strings.Contains(tail, "nopush")
+	_, isPushed := r.Header[pushHeader]
+	var want []string
+	if !w.fail && !isPushed {
+		if !remote && !nopush && strings.TrimSpace(uri) == uri {
+			want = append(want, uri)
+		}
+		if len(links) == 2 {
+			want = append(want, "/b.css")
+		}
+	}
+	if strings.TrimSpace(uri) == uri {
+		verifrt.Assert(len(w.pushed) == len(want), "pushed-exactly-the-local-links")
+		for i := range want {
+			if i < len(w.pushed) {
+				verifrt.Assert(w.pushed[i] == want[i], "pushed-target-as-written")
+			}
+		}
+	}
+	for _, p := range w.pushed {
+		verifrt.Assert(!strings.HasPrefix(p, "http://") && !strings.HasPrefix(p, "https://") && !strings.HasPrefix(p, "//"), "remote-target-never-pushed")
+	}
+	verifrt.Observe("pushed", len(w.pushed))
 }
